@@ -488,14 +488,6 @@ theorem C06_setup_pending_only_on_transport {T : Type} (tr : Transport T) (t : T
   simp only [ResOK, hn] at h
   exact h.2.2
 
-/-- D-05s, on the model: `ConnectionInner::shutdown` does not look at the connection's error — with
-    the error handled (reported by `accept`) it answers `Ok(())`, at once when a GOAWAY was sent
-    before, and after a write the transport accepts otherwise. -/
-theorem C06_shutdown_after_error_witness :
-    (shutdownEntry { handled := some .timeout } true none).2 = none ∧
-    (shutdownEntry { handled := some (.localApp 0x0105 0), closes := [0x0105] } false none).2 = none := by
-  decide
-
 -- non-vacuity, scripted transports (`scriptTr`: the answers to successive calls)
 -- everything succeeds: three openings, then `send_data`/`poll_ready` of control, decoder, encoder
 example : (buildRun scriptTr 1 [.ok, .ok, .ok, .ok, .ok, .ok, .ok, .ok, .ok] {}).2 =
